@@ -70,4 +70,26 @@ theorem tSign_eq_zero (x : Int) : Translated.Big.sign x = 0 ↔ x = 0 := by
     · have : ¬ ((1 : Int64) = 0) := by decide
       simp only [this, false_iff]; assumption
 
+theorem natBitLen_gt_iff (n k : Nat) : Aqv.Big.natBitLen n > k ↔ n ≥ 2 ^ k := by
+  unfold Aqv.Big.natBitLen
+  by_cases h : n = 0
+  · subst h; simp
+  · rw [if_neg h]
+    have := @Nat.log2_lt n k h
+    omega
+
+theorem bitLen_natCast_gt (n k : Nat) : Aqv.Big.bitLen (n : Int) > k ↔ n ≥ 2 ^ k := by
+  unfold Aqv.Big.bitLen; simp only [Int.natAbs_natCast]; exact natBitLen_gt_iff n k
+
+theorem bitLen_natCast_le (n k : Nat) : Aqv.Big.bitLen (n : Int) ≤ k ↔ n < 2 ^ k := by
+  have := bitLen_natCast_gt n k; omega
+
+/-- every natural number below 2^k (k < 2^63) fits. -/
+theorem fits_of_lt (n k : Nat) (hk : k < 2 ^ 63) (h : n < 2 ^ k) : Fits (n : Int) := by
+  have := (bitLen_natCast_le n k).mpr h
+  unfold Fits; omega
+
+theorem uint64_natCast (n : Nat) : Aqv.Big.uint64 (n : Int) = n % 2 ^ 64 := by
+  simp [Aqv.Big.uint64]
+
 end Aqv.Lemmas.Translated
